@@ -5,7 +5,8 @@ import random
 
 import numpy as np
 
-SINGLE = ["h", "t", "s", "sx", "x", "y", "z", "sdg", "tdg", ("rx", 0.7), ("ry", 1.1), ("rz", 0.3), ("p", 0.5), None, None]
+SINGLE = ["h", "t", "s", "sx", "x", "y", "z", "sdg", "tdg", ("rx", 0.7), ("ry", 1.1), ("rz", 0.3), ("p", 0.5), None, None,
+          ("rx", -0.9), ("ry", -2.3), ("rz", -1.7), ("p", -0.8), ("rx", 7.9), ("ry", 9.1), ("rz", 11.0), ("p", 6.9)]
 
 
 def build_qc(gates, nq, seed):
